@@ -5,6 +5,7 @@ package main
 // and, on stderr, a JSON object of generator statistics.
 
 import (
+	"strings"
 	"bufio"
 	"encoding/json"
 	"flag"
@@ -33,22 +34,32 @@ func main() {
 	stats := map[string]int{}
 	directed = *dir
 	switch suite {
-	case "hub", "genesis":
+	case "hub", "genesis", "det":
 		genesisMode = suite == "genesis"
+		detMode = suite == "det"
 		for i := 0; i < *n; i++ {
 			if *only >= 0 && i != *only {
 				continue
 			}
 			c, out := runHubCase(*seed*1000003+uint64(i), *nops, *hostile, *gov, suite == "genesis", stats)
-			fmt.Fprintf(w, "%s\t%s\t%s\n", suite, Str(c), Str(out))
+			if detMode {
+				fmt.Fprintf(w, "%s\t%s\t%s\t%s\tshadow=%d\n", suite, Str(c), Str(out), strings.Join(lastCaseHashes, ","), lastCaseShadowDiff)
+			} else {
+				fmt.Fprintf(w, "%s\t%s\t%s\n", suite, Str(c), Str(out))
+			}
 		}
-	case "oracle", "oraclegen":
+	case "oracle", "oraclegen", "detoracle":
+		detMode = suite == "detoracle"
 		for i := 0; i < *n; i++ {
 			if *only >= 0 && i != *only {
 				continue
 			}
 			c, out := runOracleCase(*seed*1000003+uint64(i), *nops, suite == "oraclegen", stats)
-			fmt.Fprintf(w, "%s\t%s\t%s\n", suite, Str(c), Str(out))
+			if detMode {
+				fmt.Fprintf(w, "%s\t%s\t%s\t%s\n", suite, Str(c), Str(out), strings.Join(lastCaseHashes, ","))
+			} else {
+				fmt.Fprintf(w, "%s\t%s\t%s\n", suite, Str(c), Str(out))
+			}
 		}
 	case "evm":
 		for i := 0; i < *n; i++ {
